@@ -202,6 +202,18 @@ def topoB : List Nat → List Op → Bool
   | _, [] => true
   | named, o :: os => (named.contains o.dst || named.contains o.src) && topoB (o.dst :: named) os
 
+/-- which arm of `stepSt` / `cntLab` an operation takes in state `st` (instrumentation for the coverage report):
+copy: 0 stores first (plain) copy, 1 stores a later (`_k_`) copy, 2 target already named;
+distr: 3, 4, 5 likewise; sgive: 6 stores, 7 target already named -/
+def armOf (st : St) : Op → Nat
+  | .copy s d => if (st.get d).s = [] then (if (st.get s).n = 0 then 0 else 1) else 2
+  | .distr s d => if (st.get d).s = [] then (if (st.get s).n = 0 then 3 else 4) else 5
+  | .sgive _ _ d => if (st.get d).s = [] then 6 else 7
+
+def armCounts (st : St) (acc : List Nat) : List Op → List Nat
+  | [] => acc
+  | o :: os => armCounts (stepSt st o) (acc.modify (armOf st o) (· + 1)) os
+
 /-- every delivered cell is an initially named cell or the target of some operation
 (an item created outside of any link scope is not) -/
 def coveredB (named : List Nat) (ops : List Op) (D : List Nat) : Bool :=
